@@ -26,6 +26,7 @@ func (em *emitter) emitNodes(nodes []ast.Node) {
 			em.fb.exitScope()
 
 		case *ast.Break:
+			em.checkLabel(node, node.Label, em.breakStmt)
 			if em.breakable {
 				if em.breakLabel == nil {
 					label := em.fb.newLabel()
@@ -33,9 +34,6 @@ func (em *emitter) emitNodes(nodes []ast.Node) {
 				}
 				em.fb.emitGoto(*em.breakLabel)
 			} else {
-				if node.Label != nil {
-					panic(internalError("not implemented"))
-				}
 				em.fb.emitBreak(em.rangeLabels[len(em.rangeLabels)-1])
 			}
 
@@ -46,9 +44,7 @@ func (em *emitter) emitNodes(nodes []ast.Node) {
 			// Nothing to do.
 
 		case *ast.Continue:
-			if node.Label != nil {
-				panic(internalError("not implemented"))
-			}
+			em.checkLabel(node, node.Label, em.loopStmt)
 			forHead := em.rangeLabels[len(em.rangeLabels)-1]
 			if em.inForRange {
 				em.fb.emitContinue(forHead)
@@ -104,8 +100,10 @@ func (em *emitter) emitNodes(nodes []ast.Node) {
 		case *ast.For:
 			currentBreakable := em.breakable
 			currentBreakLabel := em.breakLabel
+			currentBreakStmt, currentLoopStmt := em.breakStmt, em.loopStmt
 			em.breakable = true
 			em.breakLabel = nil
+			em.breakStmt, em.loopStmt = node, node
 			em.fb.enterScope()
 			if node.Init != nil {
 				em.emitNodes([]ast.Node{node.Init})
@@ -144,6 +142,7 @@ func (em *emitter) emitNodes(nodes []ast.Node) {
 			}
 			em.breakable = currentBreakable
 			em.breakLabel = currentBreakLabel
+			em.breakStmt, em.loopStmt = currentBreakStmt, currentLoopStmt
 
 		case *ast.ForRange:
 			em.emitForRange(node)
@@ -209,6 +208,7 @@ func (em *emitter) emitNodes(nodes []ast.Node) {
 				em.labels[em.fb.fn][node.Ident.Name] = em.fb.newLabel()
 			}
 			em.fb.setLabelAddr(em.labels[em.fb.fn][node.Ident.Name])
+			em.labeled[node.Ident.Name] = node.Statement
 			if node.Statement != nil {
 				em.emitNodes([]ast.Node{node.Statement})
 			}
@@ -278,11 +278,14 @@ func (em *emitter) emitNodes(nodes []ast.Node) {
 		case *ast.Select:
 			currentBreakable := em.breakable
 			currentBreakLabel := em.breakLabel
+			currentBreakStmt := em.breakStmt
 			em.breakable = true
 			em.breakLabel = nil
+			em.breakStmt = node
 			em.emitSelect(node)
 			em.breakable = currentBreakable
 			em.breakLabel = currentBreakLabel
+			em.breakStmt = currentBreakStmt
 
 		case *ast.Send:
 			chanType := em.typ(node.Channel)
@@ -315,14 +318,17 @@ func (em *emitter) emitNodes(nodes []ast.Node) {
 		case *ast.Switch:
 			currentBreakable := em.breakable
 			currentBreakLabel := em.breakLabel
+			currentBreakStmt := em.breakStmt
 			em.breakable = true
 			em.breakLabel = nil
+			em.breakStmt = node
 			em.emitSwitch(node)
 			if em.breakLabel != nil {
 				em.fb.setLabelAddr(*em.breakLabel)
 			}
 			em.breakable = currentBreakable
 			em.breakLabel = currentBreakLabel
+			em.breakStmt = currentBreakStmt
 
 		case *ast.Text:
 			txt := node.Text[node.Cut.Left : len(node.Text)-node.Cut.Right]
@@ -336,14 +342,17 @@ func (em *emitter) emitNodes(nodes []ast.Node) {
 		case *ast.TypeSwitch:
 			currentBreakable := em.breakable
 			currentBreakLabel := em.breakLabel
+			currentBreakStmt := em.breakStmt
 			em.breakable = true
 			em.breakLabel = nil
+			em.breakStmt = node
 			em.emitTypeSwitch(node)
 			if em.breakLabel != nil {
 				em.fb.setLabelAddr(*em.breakLabel)
 			}
 			em.breakable = currentBreakable
 			em.breakLabel = currentBreakLabel
+			em.breakStmt = currentBreakStmt
 
 		case *ast.URL:
 			if len(node.Value) == 1 {
@@ -1037,11 +1046,24 @@ func (em *emitter) emitTypeSwitch(node *ast.TypeSwitch) {
 
 }
 
+// checkLabel checks that label, the label of the break or continue statement
+// node, is nil or refers to stmt, that is the innermost statement to which
+// node can refer. Labels that refer to an outer statement are not supported:
+// see https://github.com/open2b/scriggo/issues/83.
+func (em *emitter) checkLabel(node ast.Node, label *ast.Identifier, stmt ast.Node) {
+	if label != nil && em.labeled[label.Name] != stmt {
+		pos := convertPosition(node.Pos())
+		panic(newLimitExceededError(pos, em.fb.getPath(), "label %s refers to an outer statement: not supported", label.Name))
+	}
+}
+
 // emitForRange emits a for range statement.
 func (em *emitter) emitForRange(node *ast.ForRange) {
 
 	inForRange := em.inForRange
 	em.inForRange = true
+	currentBreakStmt, currentLoopStmt := em.breakStmt, em.loopStmt
+	em.breakStmt, em.loopStmt = node, node
 
 	em.fb.enterScope()
 
@@ -1119,6 +1141,7 @@ func (em *emitter) emitForRange(node *ast.ForRange) {
 	em.fb.exitScope()
 	em.fb.exitScope()
 	em.inForRange = inForRange
+	em.breakStmt, em.loopStmt = currentBreakStmt, currentLoopStmt
 
 	if node.Else != nil {
 		endForLabel := em.fb.newLabel()
